@@ -344,12 +344,11 @@ impl Sync for CopiaSync {
         delta: &Delta,
         mut output: W,
     ) -> Result<()> {
-        // Invariant: expected output matches source size
-        debug_assert_eq!(
-            delta.expected_output_size(),
-            delta.source_size,
-            "expected output size must equal source size"
-        );
+        // The delta is untrusted input: a declared source size that does not match
+        // what the operations produce is a corrupted delta, not a programming error.
+        if delta.expected_output_size() != delta.source_size {
+            return Err(CopiaError::CorruptedDelta);
+        }
 
         // Validate delta first
         delta.validate()?;
